@@ -523,6 +523,11 @@ func c06Observe(p *prog, o *model.Node, key string) {
 		if len(o.M) > 0 && r.Chance(2, 3) {
 			ks := o.SortedKeys()
 			v = o.M[ks[r.Intn(len(ks))]]
+			if v.Ref != nil && v.Ref.Real != nil && r.Chance(1, 2) {
+				// an equal but distinct container: containers are held by reference, so it is not "contained"
+				v = model.Ref(p.h.FromSpec(v.Ref.ToSpec()))
+				p.c.Count("lookups_of_equal_but_distinct_containers")
+			}
 		} else {
 			v = p.anyVal(nil, 3)
 		}
